@@ -97,8 +97,9 @@ def h_history(c, direction):
     own, other = GhostBuffer("own"), GhostBuffer("other")
     own_attr, other_attr = ("server_packet_buffer", "client_packet_buffer") if srv else ("client_packet_buffer", "server_packet_buffer")
     own_recs, other_recs = ("server_tls_records", "client_tls_records") if srv else ("client_tls_records", "server_tls_records")
-    s = c.obj(SE, server_ip=sip, client_ip=cip, server_port=sport, client_port=cport, packet_buffer=P, server_tls_records=[], client_tls_records=[],
-              server_counter=0, client_counter=0, **{own_attr: own, other_attr: other})
+    from contracts.common import full_session
+    s = full_session(c, server_ip=sip, client_ip=cip, server_port=sport, client_port=cport, packet_buffer=P, server_tls_records=[], client_tls_records=[],
+                     server_counter=0, client_counter=0, **{own_attr: own, other_attr: other})
 
     # ---- ghost state
     gh = {"r": 0, "m": 0, "lo": (lambda j: 0), "hi": (lambda j: 0), "n": 0}
